@@ -320,6 +320,11 @@ theorem parseEntries_entries (o : WriteOpts) (recurse : Bool) (ds : List Dep) (h
     simp only [List.map_cons, parseEntries, parseEntry_entryLine o recurse p hn ho (hd p (by simp)),
       ih (fun x hx => hd x (by simp [hx]))]
 
+theorem readLines_cons (pinned r : Bool) (h : Str) (rest : List Str) (p v : Str) (ds : List Dep)
+    (hh : parseManHeader h = some (p, v)) (he : parseEntries pinned r rest = .ok ds) :
+    readLines pinned r (h :: rest) = .ok { product := some p, version := some v, deps := ds } := by
+  simp only [readLines, hh, he]
+
 theorem mem_padTo (n : Nat) (t : Str) (c : Nat) (h : c ∈ padTo n t) : c ∈ t ∨ c = 32 := by
   simp only [padTo_eq, List.mem_append, List.mem_replicate] at h
   rcases h with h | h
